@@ -8,7 +8,7 @@ from tlcrun import MachineryError
 import pipeline
 from props import _ser
 
-CLAUSES = ["C14_nodes", "C14_edges", "C14_back"]
+CLAUSES = ["C14_nodes", "C14_edges", "C14_back", "C14_noexc"]
 
 
 def run(tier, seed):
